@@ -44,15 +44,20 @@ func randomTail(b *builder, nops int, withL1 bool) {
 		h := g.Height()
 		switch x := r.Intn(20); {
 		case h == 0 || x < 9:
-			if r.Chance(2, 3) {
+			switch y := r.Intn(6); {
+			case y == 0:
+				b.finalise(eventfulSpec(g, r, ""))
+			case y < 4:
 				b.store(eventfulSpec(g, r, ""))
-			} else {
+			default:
 				b.store(nil)
 			}
 		case x < 12:
 			b.revert()
 		case x < 13:
-			b.rejected()
+			if !b.rejectedParent() {
+				b.rejected()
+			}
 		case x < 15:
 			if withL1 {
 				b.l1head()
@@ -77,6 +82,66 @@ func shortScenario(k scenKey, nops int) *Scenario {
 	b := &builder{g: g, r: r, sc: sc}
 	sc.BaseWorld = b.world()
 	randomTail(b, nops, true)
+	return sc
+}
+
+// rejects: both refusals of verifyBlockSuccession (wrong number, wrong parent) and the sequencer's
+// Finalise path, in a fixed shape.
+func rejectsScenario(k scenKey) *Scenario {
+	r := lib.NewRNG(k.Seed)
+	g := lib.NewChainGen(r, k.SrcNew, lib.DefaultGenOptions())
+	sc := newScenario(k, g)
+	b := &builder{g: g, r: r, sc: sc}
+	sc.BaseWorld = b.world()
+	b.store(eventfulSpec(g, r, ""))
+	b.finalise(eventfulSpec(g, r, ""))
+	b.revert()
+	b.store(eventfulSpec(g, r, ""))
+	if !b.rejectedParent() {
+		panic("harness: no orphan block to offer")
+	}
+	b.rejected()
+	b.finalise(eventfulSpec(g, r, ""))
+	b.simple("kill")
+	b.revert()
+	b.finalise(eventfulSpec(g, r, ""))
+	return sc
+}
+
+var exhaustiveOps = []string{"store", "finalise", "revert", "rejected", "snap", "restart", "kill", "l1head"}
+
+// exhaustive: after a fixed prefix (two blocks, graceful restart, one block) EVERY pair of calls
+// from the alphabet above, followed by one store; the pair is seed % 64.
+func exhaustiveScenario(k scenKey) *Scenario {
+	r := lib.NewRNG(k.Seed / 64)
+	g := lib.NewChainGen(r, k.SrcNew, lib.DefaultGenOptions())
+	sc := newScenario(k, g)
+	b := &builder{g: g, r: r, sc: sc}
+	sc.BaseWorld = b.world()
+	b.store(eventfulSpec(g, r, ""))
+	b.store(eventfulSpec(g, r, ""))
+	b.simple("restart")
+	b.store(eventfulSpec(g, r, ""))
+	pair := int(k.Seed % 64)
+	for _, op := range []string{exhaustiveOps[pair/8], exhaustiveOps[pair%8]} {
+		switch op {
+		case "store":
+			b.store(eventfulSpec(g, r, ""))
+		case "finalise":
+			b.finalise(eventfulSpec(g, r, ""))
+		case "revert":
+			b.revert()
+		case "rejected":
+			if !b.rejectedParent() {
+				b.rejected()
+			}
+		case "l1head":
+			b.l1head()
+		default:
+			b.simple(op)
+		}
+	}
+	b.store(eventfulSpec(g, r, ""))
 	return sc
 }
 
@@ -291,6 +356,10 @@ func buildScenario(k scenKey, f lib.Flags) *Scenario {
 		sc = shortScenario(k, f.Scale(7, 10))
 	case "snapshot-reorg":
 		sc = snapshotReorgScenario(k)
+	case "rejects":
+		sc = rejectsScenario(k)
+	case "exhaustive":
+		sc = exhaustiveScenario(k)
 	case "prune":
 		sc = pruneScenario(k)
 	case "prune-deep":
@@ -420,6 +489,7 @@ func main() {
 		for i := 0; i < f.Scale(1, 5); i++ {
 			for _, dstNew := range []bool{false, true} {
 				keys = append(keys, scenKey{"snapshot-reorg", f.Seed*1000 + uint64(i), i%2 == 1, dstNew, "memory"})
+				keys = append(keys, scenKey{"rejects", f.Seed*1000 + uint64(i), i%2 == 0, dstNew, "memory"})
 				keys = append(keys, scenKey{"prune", f.Seed*1000 + uint64(i), i%2 == 0, dstNew, "memory"})
 				keys = append(keys, scenKey{"prune-deep", f.Seed*1000 + uint64(i), i%2 == 1, dstNew, "memory"})
 			}
@@ -442,6 +512,12 @@ func main() {
 			}
 		}
 		if f.Thorough() {
+			// every pair of calls after a fixed prefix, both destination backends
+			for pair := uint64(0); pair < 64; pair++ {
+				for _, dstNew := range []bool{false, true} {
+					keys = append(keys, scenKey{"exhaustive", f.Seed*64 + pair, pair%2 == 0, dstNew, "memory"})
+				}
+			}
 			for i := 0; i < 4; i++ {
 				for _, dstNew := range []bool{false, true} {
 					keys = append(keys, scenKey{"short", f.Seed*1000 + 500 + uint64(i), i%2 == 0, dstNew, "pebble"})
